@@ -1,8 +1,14 @@
 import BV.Drv.C18
+import BV.Drv.C19
+import BV.Drv.C16
+import BV.Drv.C15
 
 def dispatch (line : String) : String :=
   match (line.trimAscii.toString.splitOn " ").filter (· ≠ "") with
   | "c18" :: rest => BV.Drv.C18.handle rest
+  | "c19" :: rest => BV.Drv.C19.handle rest
+  | "c16" :: rest => BV.Drv.C16.handle rest
+  | "c15" :: rest => BV.Drv.C15.handle rest
   | _ => "bad-op"
 
 partial def loop (h : IO.FS.Stream) (out : IO.FS.Stream) : IO Unit := do
